@@ -65,6 +65,14 @@ def run(rep, tier):
            expected=vmodel.show_atoms(exp), found=vmodel.show_atoms(got) if ok else ["%d Ok paths" % len(acc)] + list(unrec[:3]))
     rep.ob(rc, "limit", isinstance(max_size, int) and max_size == 8 * 1000000,
            "program size limit is 1,000,000 instructions of 8 bytes", expected=8000000, found=max_size)
+    # R06.i the length and last-instruction rules hold *before* the per-instruction loop starts: the loop's
+    # fetches (the second slot of a wide load in particular) rely on them
+    ri = rep.rule("R06.i", "the length predicate and the last-instruction rule are established before the per-instruction loop (they dominate every fetch of the loop)", floor=1)
+    pre, pprob = vmodel.pre_loop_atoms(vm)
+    pre = {vm.canon(a) for a in pre}
+    missing = [x for x in ref if x not in pre]
+    rep.ob(ri, "pre-loop", not missing and not pprob, "conditions on the only path that reaches the loop",
+           expected=vmodel.show_atoms(ref), found=(["missing before the loop: %s" % vmodel.show_atoms(missing)] if missing else []) + list(pprob[:2]) or "all established before the loop")
     # R06.h panic inventory
     rh = rep.rule("R06.h", "panic inventory of the verifier: a refusal is a value, never a panic", floor=50)
     inv = cx.inventory()
@@ -73,7 +81,7 @@ def run(rep, tier):
     rows = [
         Row("R06.h/wide-load-not-last", r".", r"^precond:.*<-.*panic_fmt\(", "D3",
             "the wide load's second slot exists: the last instruction is EXIT or JA (checked before the loop, R06.d), "
-            "so an LD_DW_IMM at index i has i + 1 < n", cites=("R06.d",)),
+            "so an LD_DW_IMM at index i has i + 1 < n", cites=("R06.d", "R06.i")),
     ]
     stats = sites_to_obligations(rep, rh, sites, rows)
     rep.info("site_stats", stats)
